@@ -631,10 +631,20 @@ CTX_ENUMS = ["tx3_lang::ast::InputBlockField", "tx3_lang::ast::OutputBlockField"
              "tx3_lang::cardano::CardanoPublishBlockField"]
 
 
+def _ctx_helper(t, callee):
+    return callee["crate"] == "tx3_lang" and not callee.get("impl_trait") and not callee.get("trait_default") and len(callee["blocks"]) <= 60 and \
+        any(re.search(r"lowering::Context::enter_(address|asset|datum)_expr$", t2.get("callee") or "") for _, t2 in mir.calls(callee))
+
+
 def ctx(F, res):
     exc = {(r["enum"], r["key"]): r["reason"] for r in rows("context")}
     for enum in CTX_ENUMS:
         f = F.fn("<%s as %s>::into_lower" % (enum, LOW))
+        # the switch of context may sit in a small helper of the crate (`lower_as_address(ctx, expr)`): inlined
+        try:
+            f = mir.inline_calls(F, f, want=_ctx_helper, depth=2)
+        except Exception:
+            pass
         arms = e3.variant_arms(f)
         adt = F.adt(enum)
         cfg = mir.CFG(f)
